@@ -77,7 +77,8 @@ FINDINGS = [
      "internal compiler error (HyCompileError)"),
     ("C10-match-value-bare-dot", r"^compile:ValueError:patterns may only match literals and attribute lookups$", "dot_pattern_short",
      "(match x (. y) z): a (. name) value pattern without attribute compiles to MatchValue(Name); compile() raises ValueError"),
-    ("C10-constant-name-identifier", r"^compile:ValueError:identifier field can'_'(None|True|False)' constant$", "constant_like_name",
+    ("C10-constant-name-identifier", r"^compile:ValueError:identifier field can'_'(None|True|False)' constant$",
+     "constant_name_in_deftype_or_pattern",
      "(deftype None 1), (match x \uff2eone y): a name that is or NFKC-normalises to None/True/False reaches an identifier field "
      "(deftype has no _nonconst; _nonconst tests the unmangled text); compile() raises ValueError"),
     ("C10-match-class-head", r"^compile:ValueError:MatchClass cls field can only contain Name or Attribute nodes\.$", "class_pattern_head",
